@@ -24,7 +24,7 @@ def is_sym(x):
 
 
 _STR_METHS = {'join', 'format', 'startswith', 'endswith', 'find', 'rfind', 'index',
-              'count', 'replace', 'split', 'strip', 'lstrip', 'rstrip', 'ljust', 'rjust'}
+              'count', 'replace', 'split', 'rsplit', 'partition', 'rpartition', 'strip', 'lstrip', 'rstrip', 'ljust', 'rjust'}
 
 
 class Runtime:
